@@ -203,6 +203,11 @@ func (i incrementalFactory) New(ctx context.Context) gossip.Task {
 		timer := prometheus.NewTimer(QedMonitorBatchesProcessSeconds)
 		defer timer.ObserveDuration()
 
+		if len(b.Snapshots) == 0 {
+			// nothing to monitor in an empty batch (a peer may gossip one)
+			return nil
+		}
+
 		firstSnap := balloon.Snapshot(*b.Snapshots[0].Snapshot)
 		lastSnap := balloon.Snapshot(*b.Snapshots[len(b.Snapshots)-1].Snapshot)
 
